@@ -113,6 +113,7 @@ def run(ck, replay=None):
         cid += 1
         jobs.append({'id': cid, 'src': C03.render(c, cid), 'timeout_ms': 60000})
     extra = ['pipe rp%d; bg { <rp%d> -> cat }; out hello -> <rp%d>; !pipe rp%d', 'a [1..10] -> foreach --parallel 4 i { out $i }',
+             'a [1..40] -> foreach --parallel 8 i { out $i }', 'a [1..40] -> foreach --parallel 0 i { if { $i == 7 } then { out seven }; out $i }',
              'bg { sleep 0.05; out x }; out y; sleep 0.1',
              'config set proc strict-vars false; function fcfg%d { config set proc strict-vars true; out ok }\nfcfg%d',
              'global gv%d = 1; function fg%d { global gv%d = 2 }\nfg%d | cat; out $gv%d',
